@@ -106,9 +106,9 @@ def initial_object(case, shape, seed):
 # ------------------------------------------------------------------------------------------------
 # public-API construction
 # ------------------------------------------------------------------------------------------------
-def build(case):
-    """Dataset4dstem -> PtychographyDatasetRaster.preprocess -> models -> Ptychography.preprocess.
-    Everything is seeded with case['seed']; returns a preprocessed Ptychography object on the cpu."""
+def build_dataset(case):
+    """Dataset4dstem -> PtychographyDatasetRaster, preprocessed; a pure function of the case.  Also what a
+    user hands to Ptychography.from_file(path, dset=...) for a checkpoint saved without its raw data."""
     Q = q()
     g = case["geom"]
     R, C = g["R"], g["C"]
@@ -127,6 +127,17 @@ def build(case):
         force_com_rotation=0,
         force_com_transpose=False,
     )
+    return pdset
+
+
+def build(case):
+    """Dataset4dstem -> PtychographyDatasetRaster.preprocess -> models -> Ptychography.preprocess.
+    Everything is seeded with case['seed']; returns a preprocessed Ptychography object on the cpu."""
+    Q = q()
+    g = case["geom"]
+    R, C = g["R"], g["C"]
+    seed = int(case["seed"])
+    pdset = build_dataset(case)
     M, S = int(case["M"]), int(case["S"])
     thick = case.get("thick") if S > 1 else None
     init_p = case.get("probe_init", "array")
